@@ -23,7 +23,7 @@ RULE = ("cases = histories: 1..4 CREATE TABLE (same name in 2-3 schemas and with
         "which must raise. Non-trivial = >= 1 ALTER/INDEX on a script with >= 2 tables or a re-spelled reference; distinct = text."
         " Added after seeded defects: index-only columns called like ALTER keywords, IF EXISTS / ONLY noise words, spelled rename targets, every 4th history also in a dialect mode, "
         "every ordered triple of statement kinds on one 2-3 column table (quick: 8 kinds, thorough: all 15; more column draws when a kind repeats), multi-column foreign keys whose "
-        "referenced columns are called like the key columns in another order.")
+        "referenced columns are called like the key columns in another order, renames that only re-spell the old name.")
 ASSUMPTIONS = ["columns named in ADD UNIQUE / ADD DEFAULT .. FOR / index lists use the column's current spelling (the property claims quoting/case-insensitive matching for tables, and DROP/RENAME/MODIFY COLUMN)",
                "alter.columns records are checked by number (an added column is the same object as the table column, so a later RENAME shows in it) plus the full FK records",
                "ADD column only with name/type/size/DEFAULT"]
@@ -99,6 +99,10 @@ class Model:
             c = rng.choice(names)
             sp = spell(rng, c) if c.isalnum() else c
             nm = rng.choice(["r%d", "r%d", "R_%d", '"Rn%d"', "[RN%d]", "`Rn_%d`", "MixedName%d"]) % k      # the new name is reported exactly as written
+            if c.isalnum() and rng.random() < 0.2:
+                nm = rng.choice([c.upper(), '"%s"' % c.capitalize(), "[%s]" % c, c.capitalize()])      # ... also when it only re-spells the old one (case / delimiters)
+                if nm == c:
+                    nm = '"%s"' % c
             for x in t["cols"]:
                 if x["name"] == c:
                     x["name"] = nm
